@@ -591,10 +591,16 @@ def check_population(ctx, case, tmp):
                 from swcgeom.core.population import LazyLoadingTrees
 
                 mine = list(Population.find_swcs(d))
+                listed = list(mine)
                 pop = Population(LazyLoadingTrees(mine), root=d)
                 mine.reverse()
                 mine.clear()
                 ctx.count("callers_name_list_edited_after_construction")
+                if len(pop) != len(listed) or list(pop.trees.swcs) != listed:
+                    return ctx.violation("row-count",
+                                         f"a population built from the caller's list of {len(listed)} "
+                                         f"file names has {len(pop)} members after the caller "
+                                         f"emptied its own list", case)
             else:
                 pop = Population.from_swc(d)
         except Exception:
